@@ -15,4 +15,6 @@ int  tk_split_msgs(const unsigned char *p, int len, tk_msg_t *out, int max);
 void tk12_prf_sha256(const unsigned char *secret, int slen, const char *label, const unsigned char *seed, int seedlen, unsigned char *out, int outlen);
 void tk12_finished(const unsigned char ms[48], int is_client, const buf_t *msgs, unsigned char vd[12]);
 int  tk12_gcm_seal(const unsigned char *key, int keylen, const unsigned char salt[4], uint64_t seq, int type, const unsigned char *pt, int ptlen, unsigned char *rec);
+int  tk12_gcm_seal_ex(const unsigned char *key, int keylen, const unsigned char salt[4], const unsigned char seq8[8], const unsigned char *hdr, int hdrlen, const unsigned char *pt, int ptlen, unsigned char *rec);
+int  tk12_cbc_seal_ex(const unsigned char *key, int keylen, const unsigned char *mackey, int maclen, const unsigned char seq8[8], const unsigned char *hdr, int hdrlen, const unsigned char *pt, int ptlen, int padmode, unsigned char *rec);
 #endif
